@@ -2,6 +2,8 @@
 package props
 
 import (
+	"fmt"
+	"path/filepath"
 	"strings"
 
 	"verifrig/core"
@@ -57,4 +59,51 @@ func completeLines(out string) []string {
 		out = out[:i+1]
 	}
 	return strings.Split(strings.TrimSuffix(out, "\n"), "\n")
+}
+
+// TC is one type-check case for the in-process pool.
+type TC struct {
+	ID    string
+	Files map[string]string // relative path -> content; entry is "main.fer"
+}
+
+// TypecheckAll writes every case to its own directory, compiles them on the in-process pool
+// (target typecheck) and returns CLI-shaped results; dirs[i] is the case directory.
+func (c *Ctx) TypecheckAll(tag string, cases []TC) ([]core.CompileResult, []string, error) {
+	libs, err := c.Env.Libs()
+	if err != nil {
+		return nil, nil, err
+	}
+	jobs := make([]core.Job, len(cases))
+	dirs := make([]string, len(cases))
+	for i, cs := range cases {
+		d := c.Env.CaseDir(tag, fmt.Sprintf("c%d", i))
+		dirs[i] = d
+		for rel, content := range cs.Files {
+			if err := core.WriteFile(filepath.Join(d, rel), content); err != nil {
+				return nil, nil, err
+			}
+		}
+		jobs[i] = core.Job{ID: cs.ID, Entry: filepath.Join(d, "main.fer"), Target: "typecheck"}
+	}
+	pool := &core.Pool{Libs: libs, LogDir: filepath.Join(c.Env.Work, "pool-"+tag)}
+	res := pool.Run(jobs)
+	out := make([]core.CompileResult, len(res))
+	for i := range res {
+		out[i] = res[i].ToCompileResult("")
+	}
+	return out, dirs, nil
+}
+
+// ConfirmCLI re-runs one case through the real ferret binary (type-check only).
+func (c *Ctx) ConfirmCLI(dir string) (core.CompileResult, error) {
+	bin, err := c.Env.Ferret()
+	if err != nil {
+		return core.CompileResult{}, err
+	}
+	libs, err := c.Env.Libs()
+	if err != nil {
+		return core.CompileResult{}, err
+	}
+	return core.Compile(core.CompileOpts{Binary: bin, Libs: libs, Target: core.TypeCheck}, filepath.Join(dir, "main.fer")), nil
 }
